@@ -5,7 +5,8 @@ Layers (DESIGN section 4, C12):
  1. kernel clause (T): tools/kern_bounds.py (hook tools/gen.d/30-kern-bounds)
     re-translates the masked-word / masked-state / masked-key toolkit and the
     masked permutations for MAX_SHARES 2,3,4 (C via clang LLVM IR, x86-64 .S
-    via the assembly front end) and runs them symbolically with regions of
+    via the assembly front end) and the incremental AEAD functions on three
+    state layouts, and runs them symbolically with regions of
     exactly the C types' sizes; a run stuck on valid arguments is a proved
     violation (replay = configuration, function, arguments; confirmed
     natively under ASan when the file is C).  Props/Properties_C12.v
@@ -18,8 +19,9 @@ Layers (DESIGN section 4, C12):
  3. observation (D): the operation streams of C01..C08, C14, C15 replayed on
     ASan+UBSan builds with exact-size heap buffers (VERIF_EXACT=1), one
     configuration with 0xA5 canaries instead, harness/x_c12.c (internal
-    toolkit + modes on exact-size blocks; on guard pages for the assembly of
-    the default build), and asconcrypt/asconsum under ASan with argument
+    toolkit + one-shot modes + the incremental AEAD functions on exact-size
+    blocks; on guard pages for the assembly of the default build), and
+    asconcrypt/asconsum under ASan with argument
     vectors and files of boundary lengths (deterministic randomness through
     harness/shim_c19.c).  A sanitizer report, a guard-page fault or a damaged
     canary is a violation whose replay is the operation line(s) / argv + the
@@ -30,6 +32,7 @@ from concurrent.futures import ThreadPoolExecutor
 import common, diffrun, gen, stdflow
 
 H = os.path.join(common.VERIF, "harness")
+VEC_ANNOT = "-D_GLIBCXX_SANITIZE_VECTOR"
 SAN_RE = re.compile(r"(ERROR: AddressSanitizer[^\n]*|ERROR: LeakSanitizer[^\n]*|[^\n]*runtime error:[^\n]*|AddressSanitizer:DEADLYSIGNAL)")
 ASAN_ENV = {"ASAN_OPTIONS": "detect_leaks=0:abort_on_error=0:verify_asan_link_order=0:detect_stack_use_after_return=0",
             "UBSAN_OPTIONS": "print_stacktrace=1:halt_on_error=1"}
@@ -274,12 +277,16 @@ def build_many(res, sc, specs):
 
     def one(sp):
         d = os.path.join(sc, "b-" + sp["name"])
-        ok, log = common.build_repo(d, sp["config"], sp.get("shares"), sp.get("san", False), sp.get("targets", ("ascon_static",)))
+        # sanitised builds: libstdc++'s container annotations in EVERY C++ translation unit (the library's src/cplusplus/*.cpp and the
+        # harness alike - mixing annotated and plain code gives false reports), so that ASan also sees an access between size() and
+        # capacity() of a byte_array / std::vector passed by reference
+        vec = [VEC_ANNOT] if sp.get("san") else []
+        ok, log = common.build_repo(d, sp["config"], sp.get("shares"), sp.get("san", False), sp.get("targets", ("ascon_static",)), cflags=" ".join(vec))
         if not ok:
             return sp, None, "repo", log
         r = {"dir": d}
         if sp.get("harness"):
-            ok, hlog, exe = common.build_harness(d, san=sp.get("san", False))
+            ok, hlog, exe = common.build_harness(d, san=sp.get("san", False), defs=vec)
             if not ok:
                 return sp, None, "harness", hlog
             r["harness"] = exe
@@ -385,7 +392,7 @@ def kernel_layer(res, sc, flags):
 # --------------------------------------------------------------------------
 # x_c12 (internal toolkit + modes; exact blocks / guard pages)
 
-XGROUPS = ["state", "masked-word", "masked-state", "modes", "masked-modes"]
+XGROUPS = ["state", "masked-word", "masked-state", "modes", "masked-modes", "inc-modes"]
 
 
 def run_xc12(res, exe, mode, cfgname, san, xagg):
@@ -819,6 +826,21 @@ def run(res, tier, seed, replay=None):
         # ---------------- command-line tools
         cli = cli_layer(res, sc, builds, flags, tier, rng)
         t5 = time.time()
+    # The report is capped at 20 signatures: most concrete first - sanitizer / canary / guard-page findings (operation + stack), kernel-table
+    # entries (function + arguments), then the rest; the per-control-tuple MISSING lines of tools/kern_ct.py (C11's table, whose regions are
+    # exact too, so an over-read gets stuck there as well) are folded into one finding per function.
+    folded, firsts = [], {}
+    for v in res.violations:
+        mm = re.match(r"^kern_ct(?:_masked)? (\S+) ", v[2].get("missing", "") if isinstance(v[2], dict) else "") if v[0].startswith("translator-missing:") else None
+        if mm:
+            if mm.group(1) in firsts:
+                firsts[mm.group(1)][2].setdefault("also", []).append(v[2]["missing"])
+                continue
+            firsts[mm.group(1)] = v
+        folded.append(v)
+    prio = lambda v: (3 if v[0].startswith("translator-missing:") else 2 if v[0].startswith(("coq-", "build-failed", "harness-build", "x_c12-build", "xc12-crash")) else
+                      1 if v[0].startswith("kernel-") else 0)
+    res.violations[:] = sorted(folded, key=prio)
     nlines = sum(p["lines"] for p in per)
     distinct = len(set("\n".join(s[1]) for s in sessions))
     res.notes += notes
@@ -828,7 +850,10 @@ def run(res, tier, seed, replay=None):
         "rule": "(1) kernel table: one entry per (file x MAX_SHARES, function, control-argument value), symbolic data, regions of exactly the C types' sizes - distinct by construction; "
                 "(3) operation sessions sampled (seeded, at most %d per source) from the generators of C01-C08, C14, C15 plus zero-length/NULL cases, replayed with exact-size heap buffers "
                 "under ASan+UBSan on every listed configuration (masked subset = AEM lines on the share-triple builds) and once with canaries; distinct = distinct session text; "
-                "harness/x_c12.c calls (internal toolkit, state primitives for all 861 (offset,size) pairs, one-shot modes at boundary lengths) on exact heap blocks / between guard pages; "
+                "harness/x_c12.c calls (internal toolkit, state primitives for all 861 (offset,size) pairs, one-shot modes at boundary lengths, incremental AEAD sessions with exact-size state / key / "
+                "nonce / AD / chunk / tag blocks) on exact heap blocks / between guard pages; the AI / PERM / CPX / XOFX / HSHX / UTL operations hand keys, nonces, tags, C strings, key objects and C++ objects to the library as hx.h Buf blocks of exactly the documented size "
+                "(misaligned with the others), and the sanitised builds (library and harness) are compiled with -D_GLIBCXX_SANITIZE_VECTOR, which poisons [size, capacity) of every std::vector "
+                "still passed by data() or by reference (AEC, HM/KM, ST, byte_array arguments); "
                 "command-line runs: one per argument vector listed in coverage.cli" % (350 if tier == "quick" else 2500),
         "samples": [s[1][0][:160] for s in sessions[:3]] + [s[1][0][:160] for s in msessions[:1]] + res.cov["kernel_table"]["samples"][:2] + cli.get("samples", [])[:2],
         "per_config": per,
